@@ -732,6 +732,10 @@ class Evaluator(object):
             return r
         if isinstance(t, ast.UnaryOp) and isinstance(t.op, ast.Not):
             return Poly.const(1) - self.cond(t.operand)
+        if isinstance(t, ast.Compare) and len(t.ops) > 1:
+            # a < b <= c is (a < b) and (b <= c)
+            terms = [t.left] + list(t.comparators)
+            return self.cond(ast.BoolOp(op=ast.And(), values=[ast.Compare(left=terms[i], ops=[t.ops[i]], comparators=[terms[i + 1]]) for i in range(len(t.ops))]))
         if isinstance(t, ast.Compare) and len(t.ops) == 1:
             a, b = self.ev(t.left), self.ev(t.comparators[0])
             op = t.ops[0]
